@@ -1,27 +1,35 @@
 import Stingray.Driver.C05
 import Stingray.Driver.C17
 import Stingray.Driver.C16
+import Stingray.Driver.Decode
 /-!
 Line protocol driver: `lake env lean --run Driver.lean < requests > answers`.
-One request per line: `<property> <op> <args…>` separated by single spaces; one answer line each.
+One request per line: `<family> <op> <args…>` separated by single spaces; one answer line each.
 The functions called are the same definitions the theorems in `Stingray/Props` are about.
+`DEC tables …` loads the per-byte code-page facts (read from the Python runtime) used by text decoding.
 -/
 open Stingray.Drv
 
-def dispatch (line : String) : String :=
-  match (line.trimAscii.toString.splitOn " ") with
-  | "C05" :: rest => C05.handle rest
-  | "C17" :: rest => C17.handle rest
-  | "C16" :: rest => C16.handle rest
-  | _ => "bad-op"
+structure DState where
+  tables : List Stingray.Decode.ByteInfo := []
 
-partial def loop (h : IO.FS.Stream) (out : IO.FS.Stream) : IO Unit := do
+def dispatch (st : DState) (line : String) : DState × String :=
+  match (line.trimAscii.toString.splitOn " ") with
+  | "C05" :: rest => (st, C05.handle rest)
+  | "C17" :: rest => (st, C17.handle rest)
+  | "C16" :: rest => (st, C16.handle rest)
+  | ["DEC", "tables", cps, w, d, s] => ({ st with tables := Dec.mkTables cps w d s }, "ok")
+  | "DEC" :: rest => (st, Dec.handle st.tables rest)
+  | _ => (st, "bad-op")
+
+partial def loop (h : IO.FS.Stream) (out : IO.FS.Stream) (st : DState) : IO Unit := do
   let line ← h.getLine
   if line.isEmpty then return ()
-  out.putStrLn (dispatch line)
-  loop h out
+  let (st', ans) := dispatch st line
+  out.putStrLn ans
+  loop h out st'
 
 def main : IO Unit := do
   let out ← IO.getStdout
-  loop (← IO.getStdin) out
+  loop (← IO.getStdin) out {}
   out.flush
